@@ -187,14 +187,15 @@ fn run_one(c: &av::Compiled, w: &CW, text: &str) -> Out<Result<CW, String>> {
 
 pub fn run() -> i32 {
     let mut r = Report::new("C05");
-    r.rule = "states (length 1..3) x (unstressed, primary, secondary) x tone {0,5,51,1234} x every {absent,+,-}^4 x tone{absent,0,5,51,1234} modifier, as input modifier on IPA `a:[m]`, group `V:[m]`, matrix `[+syll,m]`, `%:[m]` (stress/tone part) with a marker output, and as output matrix `X > [m]`; target first / middle / last in the middle syllable of a three-syllable word; context-free rules; compared with the table model (accept-sets where the manual only constrains). Non-trivial = the model predicts a change.".into();
+    r.rule = "states (length 1..3) x (unstressed, primary, secondary) x tone {0,5,51,1234} x every {absent,+,-}^4 x tone{absent,0,5,51,1234} modifier, as input modifier on IPA `a:[m]`, group `V:[m]`, matrix `[+syll,m]`, `%:[m]` (stress/tone part) with a marker output, and as output matrix `X > [m]`; target first / middle / last in the middle syllable of a three-syllable word; context-free rules and, for the middle position, the same rules with the context `/ s _ n`; compared with the table model (accept-sets where the manual only constrains). Non-trivial = the model predicts a change.".into();
     r.assumptions.push("contradictory input modifiers may either never match or be reported as an error (the manual demands an error only for setting)".into());
-    let mut jobs: Vec<(Kind, bool, Md)> = vec![];
-    for k in KINDS { for role in [true, false] { for m in all_mods(k != Kind::Syll) { jobs.push((k, role, m)); } } }
+    // (kind, role, modifier, with a one-item context on each side — only meaningful for the middle position)
+    let mut jobs: Vec<(Kind, bool, Md, bool)> = vec![];
+    for k in KINDS { for role in [true, false] { for m in all_mods(k != Kind::Syll) { jobs.push((k, role, m, false)); if k != Kind::Syll { jobs.push((k, role, m, true)); } } } }
     let mut tot = acc();
     par_fold(jobs.len(), 8, acc, |i, a| {
-        let (k, role, m) = jobs[i];
-        let text = rule_text(k, role, &m);
+        let (k, role, m, ctx) = jobs[i];
+        let text = if ctx { format!("{} / s _ n", rule_text(k, role, &m)) } else { rule_text(k, role, &m) };
         let compiled = match guarded(5_000_000, || av::compile(&[group(&[&text])])) {
             Out::Ok(Ok(c)) => c,
             Out::Ok(Err(e)) => {
@@ -204,6 +205,7 @@ pub fn run() -> i32 {
             o => { a.viols.push(Viol { key: format!("compile-crash|{}", text), desc: o.crash_desc().unwrap(), case: json!({"rule": text}) }); return; }
         };
         for len in 1..=3u8 { for stress in 0..3u8 { for tone in TONES { for pos in 0..3 {
+            if ctx && pos != 1 { continue; }
             let s = St { len, stress, tone };
             let w = build(&s, pos);
             a.evals += 1;
